@@ -22,8 +22,41 @@ func (c *Ctx) libFunc(name string) *ssa.Function {
 // implicitOps: operation types that token post-processing / postfix
 // conversion put into `Operation{OperationType: X}` themselves.
 func implicitOps(c *Ctx) map[*OpType]bool {
+	return implicitOpsOf(c, "handleToken", "expressionPostFixerImpl.ConvertToPostfix")
+}
+
+// implicitOpSites: the same per store, with its position.
+type implicitSite struct {
+	op  *OpType
+	pos token.Pos
+}
+
+func implicitOpSites(c *Ctx, name string) []implicitSite {
+	var out []implicitSite
+	fn := c.libFunc(name)
+	if fn == nil {
+		return nil
+	}
+	eachInstr(fn, func(ins ssa.Instruction) {
+		st, ok := ins.(*ssa.Store)
+		if !ok {
+			return
+		}
+		fa, ok := st.Addr.(*ssa.FieldAddr)
+		if !ok || fieldName(fa) != "OperationType" {
+			return
+		}
+		o, _ := resolveOpTypeValue(c.P, c.Ops, st.Val, nil, nil, map[ssa.Value]bool{})
+		for _, x := range o {
+			out = append(out, implicitSite{x, st.Pos()})
+		}
+	})
+	return out
+}
+
+func implicitOpsOf(c *Ctx, names ...string) map[*OpType]bool {
 	out := map[*OpType]bool{}
-	for _, name := range []string{"handleToken", "expressionPostFixerImpl.ConvertToPostfix"} {
+	for _, name := range names {
 		fn := c.libFunc(name)
 		if fn == nil {
 			c.R.Fatal("anchor missing: function %s", name)
